@@ -602,13 +602,20 @@ func c15RoundTrip(ctx *Ctx, v cty.Value, t cty.Type, how string) {
 		fail("unmarshal-err", "Unmarshal rejects Marshal's own output", string(b))
 	case !v2.Type().Equals(v.Type()):
 		fail("type", "round trip changed the type of the value", string(b)+" -> "+encVal(v2))
-	case !v2.RawEquals(v):
-		fail("rawequals", "round trip result is not RawEquals to the original", string(b)+" -> "+encVal(v2))
 	default:
+		// "equal to the original" is Equals (known, true); RawEquals is observed as well
 		eq := cty.False
 		p, _ := try(func() { eq = v2.Equals(v) })
-		if p || !eq.IsKnown() || eq.False() {
-			fail("equals", "round trip result is RawEquals but not Equals to the original", string(b)+" -> "+encVal(v2))
+		raw := v2.RawEquals(v)
+		switch {
+		case p || !eq.IsKnown() || eq.False():
+			what := "round trip result is not Equals to the original"
+			if raw {
+				what += " (although RawEquals)"
+			}
+			fail("equals", what, string(b)+" -> "+encVal(v2))
+		case !raw:
+			ctx.Tag("rawequals-false-but-equals-true")
 		}
 	}
 	// mirror: plain decoding has the value's structure (own type, no placeholder => no wrappers)
